@@ -127,3 +127,32 @@ func H_C09_WiringStores() {
 	}
 	rt.Reach("end")
 }
+
+func hasStr(xs []string, want string) bool {
+	for _, x := range xs {
+		if x == want {
+			return true
+		}
+	}
+	return false
+}
+
+// H_C06_WiringKeepers: each custom ante decorator is constructed with its own module's keeper
+// (the WRKChain and BEACON keepers implement each other's ante interfaces, so a mix-up compiles),
+// both in ante.NewAnteHandler and in the options app.NewApp passes to it.
+func H_C06_WiringKeepers() {
+	if !rtw.Static() {
+		return
+	}
+	const nah = "github.com/unification-com/mainchain/ante.NewAnteHandler"
+	w := rtw.StaticCallArgFields(nah, "x/wrkchain/ante.NewCorrectWrkChainFeeDecorator")
+	b := rtw.StaticCallArgFields(nah, "x/beacon/ante.NewCorrectBeaconFeeDecorator")
+	e := rtw.StaticCallArgFields(nah, "x/enterprise/ante.NewCheckLockedUndDecorator")
+	rt.Assert("C06.wrkchain-decorator-gets-wrkchain-keeper", len(w) == 4 && w[0] == "BK" && w[1] == "AccountKeeper" && w[2] == "WrkchainKeeper" && w[3] == "EnterpriseKeeper")
+	rt.Assert("C06.beacon-decorator-gets-beacon-keeper", len(b) == 4 && b[0] == "BK" && b[1] == "AccountKeeper" && b[2] == "BeaconKeeper" && b[3] == "EnterpriseKeeper")
+	rt.Assert("C05+C06.unlock-decorator-gets-enterprise-keeper", len(e) == 1 && e[0] == "EnterpriseKeeper")
+	init := rtw.StaticStructInit("github.com/unification-com/mainchain/app.NewApp", "ante.HandlerOptions")
+	rt.Assert("C06.app-passes-own-keepers-to-ante", hasStr(init, "WrkchainKeeper=WrkchainKeeper") && hasStr(init, "BeaconKeeper=BeaconKeeper") &&
+		hasStr(init, "EnterpriseKeeper=EnterpriseKeeper") && hasStr(init, "BK=BankKeeper"))
+	rt.Reach("end")
+}
